@@ -7,3 +7,73 @@ pub(crate) fn from_bits(b: i128) -> Duration {
 pub(crate) fn bits(d: Duration) -> i128 {
     d.inner.to_bits()
 }
+
+// ------------------------------------------------------------------------------------------------
+// C19 (serde representation clause): `Duration::serialize` hands the complete 128-bit pattern to the
+// serializer as one i128, and `Duration::deserialize` rebuilds exactly the i128 it is given -- so whatever
+// integer-faithful format carries it (serde_json in the daemon), no bits are lost in the library's part.
+// ------------------------------------------------------------------------------------------------
+#[cfg(feature = "serde")]
+mod serde_contract {
+    use super::*;
+    use serde::ser::{Impossible, Serializer};
+    use serde::Serialize;
+
+    #[derive(Debug)]
+    struct NoErr;
+    impl core::fmt::Display for NoErr {
+        fn fmt(&self, _f: &mut core::fmt::Formatter<'_>) -> core::fmt::Result { Ok(()) }
+    }
+    impl serde::ser::StdError for NoErr {}
+    impl serde::ser::Error for NoErr {
+        fn custom<T: core::fmt::Display>(_msg: T) -> Self { NoErr }
+    }
+
+    /// records which primitive the value was serialized as
+    #[derive(Clone, Copy, PartialEq, Debug)]
+    enum Seen { I128(i128), I64(i64), Other }
+    struct Rec;
+    macro_rules! other {
+        ($($name:ident($t:ty)),*) => { $( fn $name(self, _v: $t) -> Result<Seen, NoErr> { Ok(Seen::Other) } )* };
+    }
+    impl Serializer for Rec {
+        type Ok = Seen;
+        type Error = NoErr;
+        type SerializeSeq = Impossible<Seen, NoErr>;
+        type SerializeTuple = Impossible<Seen, NoErr>;
+        type SerializeTupleStruct = Impossible<Seen, NoErr>;
+        type SerializeTupleVariant = Impossible<Seen, NoErr>;
+        type SerializeMap = Impossible<Seen, NoErr>;
+        type SerializeStruct = Impossible<Seen, NoErr>;
+        type SerializeStructVariant = Impossible<Seen, NoErr>;
+        fn serialize_i128(self, v: i128) -> Result<Seen, NoErr> { Ok(Seen::I128(v)) }
+        fn serialize_i64(self, v: i64) -> Result<Seen, NoErr> { Ok(Seen::I64(v)) }
+        other!(serialize_bool(bool), serialize_i8(i8), serialize_i16(i16), serialize_i32(i32), serialize_u8(u8), serialize_u16(u16),
+               serialize_u32(u32), serialize_u64(u64), serialize_u128(u128), serialize_f32(f32), serialize_f64(f64), serialize_char(char),
+               serialize_str(&str), serialize_bytes(&[u8]), serialize_unit_struct(&'static str));
+        fn serialize_none(self) -> Result<Seen, NoErr> { Ok(Seen::Other) }
+        fn serialize_some<T: ?Sized + Serialize>(self, _v: &T) -> Result<Seen, NoErr> { Ok(Seen::Other) }
+        fn serialize_unit(self) -> Result<Seen, NoErr> { Ok(Seen::Other) }
+        fn serialize_unit_variant(self, _n: &'static str, _i: u32, _v: &'static str) -> Result<Seen, NoErr> { Ok(Seen::Other) }
+        fn serialize_newtype_struct<T: ?Sized + Serialize>(self, _n: &'static str, _v: &T) -> Result<Seen, NoErr> { Ok(Seen::Other) }
+        fn serialize_newtype_variant<T: ?Sized + Serialize>(self, _n: &'static str, _i: u32, _v: &'static str, _x: &T) -> Result<Seen, NoErr> { Ok(Seen::Other) }
+        fn serialize_seq(self, _l: Option<usize>) -> Result<Self::SerializeSeq, NoErr> { Err(NoErr) }
+        fn serialize_tuple(self, _l: usize) -> Result<Self::SerializeTuple, NoErr> { Err(NoErr) }
+        fn serialize_tuple_struct(self, _n: &'static str, _l: usize) -> Result<Self::SerializeTupleStruct, NoErr> { Err(NoErr) }
+        fn serialize_tuple_variant(self, _n: &'static str, _i: u32, _v: &'static str, _l: usize) -> Result<Self::SerializeTupleVariant, NoErr> { Err(NoErr) }
+        fn serialize_map(self, _l: Option<usize>) -> Result<Self::SerializeMap, NoErr> { Err(NoErr) }
+        fn serialize_struct(self, _n: &'static str, _l: usize) -> Result<Self::SerializeStruct, NoErr> { Err(NoErr) }
+        fn serialize_struct_variant(self, _n: &'static str, _i: u32, _v: &'static str, _l: usize) -> Result<Self::SerializeStructVariant, NoErr> { Err(NoErr) }
+    }
+
+    #[kani::proof]
+    fn c19_duration_serializes_its_full_bit_pattern() {
+        let b: i128 = kani::any();
+        let d = from_bits(b);
+        assert!(d.serialize(Rec).unwrap() == Seen::I128(b));
+        // the wire time interval (observed as delay asymmetry / mean link delay) likewise, as its 64 bits
+        let t: i64 = kani::any();
+        let ti = crate::datastructures::common::TimeInterval(fixed::types::I48F16::from_bits(t));
+        assert!(ti.serialize(Rec).unwrap() == Seen::I64(t));
+    }
+}
